@@ -66,6 +66,10 @@ func (w *walker) visit(m *model, depth int) {
 	if m.n != m.size {
 		classes = append(classes, fmt.Sprintf("rho:%d", m.n/m.size))
 	}
+	classes = append(classes, m.tags...)
+	if m.initSpare > 0 {
+		classes = append(classes, "init_spare_capacity")
+	}
 	m.checkShape(t)
 	// GetCoeff under two shifts of the list (all shifts at the shallow nodes)
 	ks := []int{shifts[w.ctr%len(shifts)], shifts[(w.ctr*5+3)%len(shifts)]}
@@ -85,6 +89,12 @@ func (w *walker) visit(m *model, depth int) {
 	}
 	domainPoint, shifted := false, false
 	if m.canEvaluate() {
+		if depth > 0 {
+			switch op := m.hist[len(m.hist)-1]; op {
+			case "Clone", "ShallowClone", "WriteRead": // evaluated right after, no conversion in between
+				classes = append(classes, "eval_after_"+op+":"+m.form.String())
+			}
+		}
 		for e := 0; e < nEval; e++ {
 			j := w.ctr*w.evalsPer + e
 			pc := pointClasses[j%len(pointClasses)]
@@ -113,7 +123,7 @@ func (w *walker) visit(m *model, depth int) {
 		return
 	}
 	for op := 0; op < nOps; op++ {
-		c := m.fork()
+		c := m.fork(t)
 		if !c.apply(t, op, w.ctr+op, w.maxLen*m.size) {
 			w.pruned++
 			continue
@@ -165,24 +175,25 @@ func TestC20_Exhaustive(t *testing.T) {
 			type job struct {
 				lg, rho, depth int
 				form           inst.IopForm
+				spare          bool
 			}
 			var jobs []job
 			maxLg, depth := 6, rep.Scale(4, 5)
 			for lg := 0; lg <= maxLg; lg++ {
 				for _, f := range allForms {
-					jobs = append(jobs, job{lg, 1, depth, f}, job{lg, 2, depth - 1, f})
+					jobs = append(jobs, job{lg, 1, depth, f, false}, job{lg, 2, depth - 1, f, false}, job{lg, 1, depth - 1, f, true})
 				}
 			}
 			if rep.Thorough() { // larger sizes for a subset: shorter histories
 				for lg := 7; lg <= 10; lg++ {
 					for _, f := range allForms {
-						jobs = append(jobs, job{lg, 1, 3, f})
+						jobs = append(jobs, job{lg, 1, 3, f, false})
 					}
 				}
 			}
 			var nodes, pruned, skipped int64
 			for ji, j := range jobs {
-				if ji%nsh != k {
+				if (ji+ji/3)%nsh != k { // the three kinds of initial object rotate over the shards
 					continue
 				}
 				size := 1 << j.lg
@@ -192,12 +203,16 @@ func TestC20_Exhaustive(t *testing.T) {
 					w.maxLen, w.evalsPer = 2, 2
 				}
 				m := newModel(sh, j.form, size*j.rho)
+				if j.spare { // the object is buf[:size] of a buffer with non-zero spare capacity for every growth step
+					m = newModelSpare(sh, j.form, size, 3*size+3)
+				}
 				w.visit(m, 0)
 				nodes += w.nodes
 				pruned += w.pruned
 				skipped += w.skipEval
 			}
 			rep.Exhaustive(test)
+			rep.Note(test, "conversions on a LARGER domain are generated for Canonical objects in both layouts (a coefficient vector refers to no domain); for Lagrange/LagrangeCoset objects the domain argument must be the domain the stored values live on (the object does not record it) - passing a domain of another cardinality is treated as a caller error and not generated, although the library does not reject it (it zero-pads the values and returns a different polynomial)")
 			rep.Note(test, fmt.Sprintf("all operation sequences over %v up to length %d (extended initial objects: %d) from each of the 6 forms, sizes 2^0..2^%d; grow operations apply only to Canonical/Regular objects and up to 4x the size; Evaluate in LagrangeCoset basis only once ToLagrangeCoset has stored the coset (DESIGN §11); GetCoeff in Canonical basis only with shift 0",
 				opNames, depth, depth-1, maxLg))
 			t.Logf("%s: %d nodes, %d pruned by precondition, %d nodes without Evaluate (coset not stored)", I.Name(), nodes, pruned, skipped)
